@@ -126,15 +126,18 @@ def _validate(args):
     return r
 
 
-def _find_trace(paths, tid):
+def _find_traces(paths, tids):
+    """one pass over the shard files -> {trace id: trace} for the ids asked for"""
+    out = {}
+    if not tids:
+        return out
     for p in paths:
         with open(p) as f:
             for line in f:
-                if tid in line:
-                    t = json.loads(line)
-                    if t["id"] == tid:
-                        return t
-    return None
+                tid = line[7:line.index('"', 7)]          # every line starts with {"id":"<tid>"
+                if tid in tids:
+                    out[tid] = json.loads(line)
+    return out
 
 
 def replay(chk, path):
@@ -253,17 +256,14 @@ def main(chk):
     elif not real_rej:
         chk.machinery("vacuous: no PostgreSQL trace contains both ADD CONSTRAINT and DROP CONSTRAINT")
     case_by_gid = dict(cases)
+    detailed = _find_traces(paths, {j["rej"] for j in real_rej[:400]})       # full traces for the first few hundred only
     for j in real_rej:
         tid = j["rej"]
         gid, be, sc = tid.split(":")[:3]
         case = case_by_gid[int(gid[1:])]
         why = sorted(j["why"])
-        tr = _find_trace(paths, tid)
-        call = ""
-        if tr:
-            for e in tr["ev"][:j["at"]]:
-                if e["e"] == "Call":
-                    call = e["c"]
+        tr = detailed.get(tid)
+        call = j["call"]
         chk.violation({"spec": "TraceCatalog", "action": j["ev"]["e"], "call": call, "why": ";".join(why), "impl": be, "scenario": sc,
                        "cyclic": case["allcyclic"], "use_alter": any(f["ua"] for f in case["fk"]), "named": case["named"]},
                       "trace %s rejected at event %d %s during %s: failing conjunct(s) %s; graph %s; catalog then %s"
